@@ -870,6 +870,15 @@ fn check_pat(sh: &Shared, l: &LiveH, when: &str) {
 }
 
 fn release(tid: usize, sh: &Shared, a: &Arena, l: &LiveH) {
+  release_with(tid, sh, l, || {
+    if l.m.3 > 0 {
+      unsafe { a.dealloc(l.m.2 as u32, l.m.3 as u32) };
+    }
+  })
+}
+
+/// the release proper is `how`: an explicit `dealloc` of the buffer extent, or the drop of the handle
+fn release_with(tid: usize, sh: &Shared, l: &LiveH, how: impl FnOnce()) {
   check_pat(sh, l, "before its release");
   ENG.with(|e| {
     let mut e = e.borrow_mut();
@@ -885,9 +894,7 @@ fn release(tid: usize, sh: &Shared, a: &Arena, l: &LiveH) {
       e.trace.push(TraceEv { tid, what: format!("release {:?}", l.m) });
     }
   });
-  if l.m.3 > 0 {
-    unsafe { a.dealloc(l.m.2 as u32, l.m.3 as u32) };
-  }
+  how();
 }
 
 fn values(d: i64) {
@@ -928,6 +935,27 @@ struct Held {
   mine: Option<Arena>,
   clones: Vec<Arena>,
   owned: Vec<(LiveH, rarena_allocator::BytesMut<Arena>)>,
+  /// borrowed handles this thread keeps: a release is the drop of the handle itself (its own `Drop` decides
+  /// what is given back)
+  own: Vec<(LiveH, HB)>,
+}
+
+/// a borrowed handle of one of the kinds the programs allocate
+enum HB {
+  Bytes(rarena_allocator::BytesRefMut<'static, Arena>),
+  U64(rarena_allocator::RefMut<'static, u64, Arena>),
+  U128(rarena_allocator::RefMut<'static, u128, Arena>),
+}
+impl HB {
+  fn detach(&mut self) {
+    unsafe {
+      match self {
+        HB::Bytes(b) => b.detach(),
+        HB::U64(b) => b.detach(),
+        HB::U128(b) => b.detach(),
+      }
+    }
+  }
 }
 impl Drop for Held {
   fn drop(&mut self) {
@@ -935,14 +963,14 @@ impl Drop for Held {
       std::mem::forget(self.mine.take());
       std::mem::forget(std::mem::take(&mut self.clones));
       std::mem::forget(std::mem::take(&mut self.owned));
+      std::mem::forget(std::mem::take(&mut self.own));
     }
   }
 }
 
 fn run_thread(tid: usize, sh: &Shared, prog: &[TOp], mine: Option<Arena>) {
-  let mut own: Vec<LiveH> = vec![];
-  let mut held = Held { mine, clones: vec![], owned: vec![] };
-  let Held { mine, clones, owned } = &mut held;
+  let mut held = Held { mine, clones: vec![], owned: vec![], own: vec![] };
+  let Held { mine, clones, owned, own } = &mut held;
   for (k, op) in prog.iter().enumerate() {
     begin_op(tid, k);
     // the arena value this thread works through
@@ -961,16 +989,16 @@ fn run_thread(tid: usize, sh: &Shared, prog: &[TOp], mine: Option<Arena>) {
     let a: &Arena = unsafe { &*(a as *const Arena) };
     match *op {
       TOp::B(n) => match a.alloc_bytes(n) {
-        Ok(mut b) => {
-          unsafe { b.detach() };
-          own.push(reg_alloc_req(tid, sh, meta_of(&b), "bytes", 0xA0 + tid as u8, Some((n, 0, 1))));
+        Ok(b) => {
+          let l = reg_alloc_req(tid, sh, meta_of(&b), "bytes", 0xA0 + tid as u8, Some((n, 0, 1)));
+          own.push((l, HB::Bytes(b)));
         }
         Err(_) => tr(tid, || format!("B{n} failed")),
       },
       TOp::U64 => match unsafe { a.alloc::<u64>() } {
-        Ok(mut b) => {
-          unsafe { b.detach() };
-          own.push(reg_alloc_req(tid, sh, meta_of(&b), "typed", 0xB0 + tid as u8, Some((0, 8, 8))));
+        Ok(b) => {
+          let l = reg_alloc_req(tid, sh, meta_of(&b), "typed", 0xB0 + tid as u8, Some((0, 8, 8)));
+          own.push((l, HB::U64(b)));
         }
         Err(_) => tr(tid, || "U64 failed".into()),
       },
@@ -1004,16 +1032,16 @@ fn run_thread(tid: usize, sh: &Shared, prog: &[TOp], mine: Option<Arena>) {
         }
       }
       TOp::T16 => match unsafe { a.alloc::<u128>() } {
-        Ok(mut b) => {
-          unsafe { b.detach() };
-          own.push(reg_alloc_req(tid, sh, meta_of(&b), "typed", 0xB8 + tid as u8, Some((0, 16, 16))));
+        Ok(b) => {
+          let l = reg_alloc_req(tid, sh, meta_of(&b), "typed", 0xB8 + tid as u8, Some((0, 16, 16)));
+          own.push((l, HB::U128(b)));
         }
         Err(_) => tr(tid, || "T16 failed".into()),
       },
       TOp::AB(n) => match a.alloc_aligned_bytes::<u64>(n) {
-        Ok(mut b) => {
-          unsafe { b.detach() };
-          own.push(reg_alloc_req(tid, sh, meta_of(&b), "aligned-bytes", 0xD0 + tid as u8, Some((n, 8, 8))));
+        Ok(b) => {
+          let l = reg_alloc_req(tid, sh, meta_of(&b), "aligned-bytes", 0xD0 + tid as u8, Some((n, 8, 8)));
+          own.push((l, HB::Bytes(b)));
         }
         Err(_) => tr(tid, || format!("AB{n} failed")),
       },
@@ -1041,8 +1069,8 @@ fn run_thread(tid: usize, sh: &Shared, prog: &[TOp], mine: Option<Arena>) {
           });
           values(-1);
           drop(b);
-        } else if let Some(l) = own.pop() {
-          release(tid, sh, a, &l);
+        } else if let Some((l, h)) = own.pop() {
+          release_with(tid, sh, &l, move || drop(h));
         }
       }
       TOp::DropPre(i) => {
@@ -1068,6 +1096,11 @@ fn run_thread(tid: usize, sh: &Shared, prog: &[TOp], mine: Option<Arena>) {
         ENG.with(|e| e.borrow_mut().obs.push((tid as u8, 3, v)));
       }
       TOp::DropArena => {
+        // handles that are kept for ever must not outlive the value they borrow: they are detached (they stay
+        // registered as live ranges)
+        for (_, h) in own.iter_mut() {
+          h.detach();
+        }
         if let Some(c) = clones.pop() {
           values(-1);
           drop(c);
@@ -1079,8 +1112,13 @@ fn run_thread(tid: usize, sh: &Shared, prog: &[TOp], mine: Option<Arena>) {
     }
     end_op(tid);
   }
-  // end of thread: owned handles and arena values this thread still holds are dropped here
+  // end of thread: owned handles and arena values this thread still holds are dropped here; borrowed handles it
+  // kept are kept for ever (detached)
   begin_op(tid, prog.len());
+  for (_, mut h) in own.drain(..) {
+    h.detach();
+    drop(h);
+  }
   for (l, b) in owned.drain(..).rev() {
     ENG.with(|e| e.borrow_mut().live.retain(|x| !(x.m == l.m && x.tid == l.tid)));
     let mut b = b;
@@ -1468,6 +1506,29 @@ fn drain(a: &Arena, sh: &Shared) {
           got.push(reg_alloc(n, sh, meta_of(&b), "bytes", 0xE0));
         }
         Err(_) => {}
+      }
+    }
+    // then every segment that is still listed is taken as a whole (fresh space is used up first; a request of
+    // exactly the data size of the head takes the head under both policies): a listed segment that reaches into
+    // a live range becomes a handle that overlaps it
+    ENG.with(|e| e.borrow_mut().solo = Some((n, 400)));
+    let rem = a.remaining() as u32;
+    if rem > 0 {
+      if let Ok(mut b) = a.alloc_bytes(rem) {
+        unsafe { b.detach() };
+        got.push(reg_alloc(n, sh, meta_of(&b), "bytes", 0xE1));
+      }
+    }
+    let snap = a.verif_snapshot(16);
+    for (_, word) in snap.nodes.iter() {
+      let sz = (*word >> 32) as u32;
+      if sz == 0 {
+        break;
+      }
+      ENG.with(|e| e.borrow_mut().solo = Some((n, 400)));
+      if let Ok(mut b) = a.alloc_bytes(sz) {
+        unsafe { b.detach() };
+        got.push(reg_alloc(n, sh, meta_of(&b), "bytes", 0xE2));
       }
     }
     // walk the whole list twice more: an insertion (release of the first block obtained, which is
